@@ -245,8 +245,9 @@ def build_model():
             with open(os.path.join(out_dir, os.path.basename(s)), "wb") as f:
                 f.write(open(s, "rb").read())
         rc, out, err = run(["ocamlfind", "ocamlopt", "-O3", "-w", "-a", "-package", "str", "-linkpkg"]
-                           + [os.path.basename(s) for s in srcs] + ["-o", "zwmodel"], cwd=out_dir, timeout=600)
+                           + [os.path.basename(s) for s in srcs] + ["-o", "zwmodel.new"], cwd=out_dir, timeout=600)
         if rc == 0:
+            os.replace(binp + ".new", binp)       # a check running the old binary keeps its file
             open(stamp, "w").write(h.hexdigest())
         return rc == 0, out + err
 
